@@ -272,6 +272,8 @@ class FieldsIO:
         assert field.dtype == self.dtype, f"expected {self.dtype} dtype, got {field.dtype}"
         assert field.size == self.nItems, f"expected {self.nItems} values, got {field.size}"
         with open(self.fileName, "ab") as f:
+            # drop the incomplete record that an interrupted write may have left, such that the new record is aligned
+            f.truncate(self.hSize + self.nFields * (self.tSize + self.fSize))
             np.array(time, dtype=T_DTYPE).tofile(f)
             field.tofile(f)
 
